@@ -15,7 +15,7 @@ use zmq_simrt as rt;
 fn cancel_world(ctx: &mut Ctx) {
     let kind = RECV_KINDS[(ctx.idx % RECV_KINDS.len() as u64) as usize];
     let faults = ctx.idx % 12 >= 6;
-    let out = recv::run(ctx, RecvCfg { kind, faults, cancel: true, max_senders: 3, max_msgs: 10, big: false, rejoin: false });
+    let out = recv::run(ctx, RecvCfg { kind, faults, cancel: true, max_senders: 3, max_msgs: 10, big: false, rejoin: false, long: (ctx.idx / 12) % 16 == 15 });
     recv::check_delivery(ctx, &out);
     ctx.check_panics();
 }
